@@ -80,7 +80,10 @@ enum Flags : unsigned {
   F_FAULT = 32,     // worth injecting faults into
   F_NOSELF = 64,    // not meaningful with aliased operands
   F_SOUND = 128,    // twin results need not be equal (e.g. precision is not promised)
-  F_CONSUMES = 256  // argument operand is left unspecified (recycling / m_swap)
+  F_CONSUMES = 256, // argument operand is left unspecified (recycling / m_swap)
+  F_SYNT = 512      // the answer is a function of the syntactic representation (number of disjuncts): after a reload it is
+                    // compared by the re-dump only; later it legitimately depends on the lazy state of operands that the
+                    // original shares copy-on-write with other objects and the replica does not
 };
 
 template <class D> struct Desc {
@@ -1044,12 +1047,13 @@ template <class D> struct ObjHarness : Harness {
           harvest(R, *R.pool[(size_t) slots[0]]);
           continue;
         }
+        if (getenv("VERIF_TRACE") && use_shadow) std::cerr << "TRACE shadow receiver after " << op.kind << "\n" << dump_of(*twin_ops[0]) << "\n";
         const char* mon = use_twin ? "twin" : use_alias_ref ? "alias" : "shadow";
         const std::string tprop = use_twin ? prop : use_alias_ref ? "C13" : "C15";
         ++R.twin_cmp; ctx.stat(std::string("cmp.") + mon);
         if (tthrew) ctx.violation(tprop, std::string(mon) + "-throws", klass(op), "the operation threw on the reference operands only: " + tans);
         else {
-          if ((d.flags & F_ANS) && tans != ans)
+          if ((d.flags & F_ANS) && tans != ans && !(use_shadow && (d.flags & F_SYNT)))
             ctx.violation(tprop, std::string(mon) + "-answer", klass(op), "answer " + ans + " but " + tans + " on an equal value built differently");
           if (d.flags & F_VAL) {
             D& mine = *R.pool[(size_t) slots[0]]; D& ref = *twin_ops[0];
